@@ -162,7 +162,7 @@ fn check_all(run: &Run, cfg: &Cfg, x: &Dec, t: &mut Tally) {
     let xb = bd(x);
     t.states += 1;
     for k in KINDS {
-        if k.is_plain() && x.s.abs() > 5000 {
+        if k.is_plain() && x.s.abs() > 100_001 {
             continue;
         }
         t.transitions += 1;
@@ -247,13 +247,13 @@ fn main() {
         t
     });
 
-    // S3: scale alphabet up to +-10^15 (plain only for |scale| <= 5000)
+    // S3: scale alphabet up to +-10^15 (plain only for |scale| <= 100001)
     let mut scales: Vec<i128> = vec![];
     for e in [3u32, 6, 9, 12, 15] {
         let p = 10i128.pow(e);
         scales.extend([p, -p, p - 1, -(p - 1), p + 1, -(p + 1)]);
     }
-    scales.extend([4999, 5000, 5001, -4999, -5000, -5001, i32::MAX as i128, i32::MIN as i128, i32::MAX as i128 + 1]);
+    scales.extend([4999, 5000, 5001, -4999, -5000, -5001, 32767, 32768, 65535, 65536, 65537, -65536, 100_000, -100_000, 100_001, i32::MAX as i128, i32::MIN as i128, i32::MAX as i128 + 1]);
     scales.retain(|s| s.abs() <= 10i128.pow(15));
     run.bound("S3_scales", json!(scales.iter().map(|s| s.to_string()).collect::<Vec<_>>()));
     run.par("S3 scale alphabet", scales.len(), |i| {
